@@ -232,6 +232,27 @@ def determinism(chk, tier, paths, d):
             name, mode, h = line.split()
             chk.seen(('det', name, mode, hs, nwarm))
             results.setdefault((name, mode), {}).setdefault(h, []).append('hashseed=%s warm=%d' % (hs, nwarm))
+    # history that changes what the interpreter allows: dependency chains near / beyond the depth a fresh process accepts, translated in a fresh process and after
+    # a large workbook (and others) went through the same process
+    deep_paths = []
+    for depth in (150, 300, 600, 1200):
+        x = os.path.join(d, 'chain%d.xlsx' % depth)
+        realcode.write_xlsx(x, [('S', [[1, '=A%d' % depth]] + [['=A%d+1' % r] for r in range(1, depth)])])
+        deep_paths.append(x)
+    large = os.path.join(d, 'large.xlsx')
+    realcode.write_xlsx(large, [('L', [[r * 100 + c for c in range(100)] for r in range(60)])])
+    djobs = []
+    for hs in seeds[:2]:
+        for warm in ([], [large], [large, paths[0]], [deep_paths[3], large], [paths[1]]):
+            djobs.append((hs, len(warm), subprocess.Popen(['/venv/bin/python', worker, core.REPO, ','.join(warm)] + deep_paths,
+                                                          stdout=subprocess.PIPE, stderr=subprocess.DEVNULL, text=True, env=dict(env_base, PYTHONHASHSEED=hs))))
+    for hs, nwarm, p in djobs:
+        out, _ = p.communicate(timeout=900)
+        chk.count('determinism:deep-chain-history')
+        for line in out.strip().splitlines():
+            name, mode, h = line.split()
+            chk.seen(('det', name, mode, hs, nwarm))
+            results.setdefault((name, mode), {}).setdefault(h, []).append('hashseed=%s warm=%d' % (hs, nwarm))
     # cold start: the first translations of a fresh process are made by four threads at once
     cold = os.path.join(core.VERIF, 'harness', 'c09_cold.py')
     cjobs = [subprocess.Popen(['/venv/bin/python', cold, core.REPO] + [paths[0], paths[1], paths[3]], stdout=subprocess.PIPE, stderr=subprocess.DEVNULL, text=True,
